@@ -1,3 +1,4 @@
+import re
 """RF-E decoder framing: the set of input lengths a decoder can accept, computed from the facts that hold at its
 accept sites (difference bounds on len(input)) and from the modular guards the accept sites depend on, composed
 through delegated decoders.  RF-L limit guards.  RF-N codec layout (writer/reader agreement)."""
@@ -493,12 +494,25 @@ def _lift_threshold(ctx, cfg, fn, zf, sym, k, depth=0):
                 yield r
 
 
-def rule_size_thresholds(ctx, cfg='prod-all', scope=('bbsplus::', 'utils::util::bbsplus_utils', 'utils::message::bbsplus_message', 'utils::util::get_remaining')):
+THRESHOLDS_CL03 = {
+    # (the type whose functions may make the decision, what is counted, literal)
+    ('cl03::sigma_protocols::NISPMultiSecrets::', 'len:messages', 1): 'a vector of one attribute can only hide position 0',
+    ('cl03::signature::<impl schemes::generics::Signature<schemes::algorithms::CL03<CS>>>::', 'len:unrevealed_indexes', 0): 'nothing hidden: bases and attributes are handed back as they are',
+}
+
+
+def rule_size_thresholds_cl03(ctx, cfg='prod-all'):
+    """the same census over the CL03 code: the protocols are uniform in the number of attributes and of hidden positions (two tabled special cases)"""
+    return rule_size_thresholds(ctx, cfg=cfg, scope=('cl03::',), table=THRESHOLDS_CL03, floor=3)
+
+
+def rule_size_thresholds(ctx, cfg='prod-all', scope=('bbsplus::', 'utils::util::bbsplus_utils', 'utils::message::bbsplus_message', 'utils::util::get_remaining'), table=None, floor=10):
     """A *size special case* is a branch on `count OP literal` both of whose outcomes can still end in success, or a partition of a list at a
     literal size: vectors on either side are processed by different code, which no fixture sees unless it happens to cross the literal.
     Exempt by construction: guards (one outcome can only fail - what they accept is decided by RF-E / RF-L / RF-F), and lengths of octet
     strings (framing: RF-E / RF-N).  Every remaining special case must be one the drafts define (table)."""
     prog, za, eng = ctx.prog(cfg), ctx.zone(cfg), ctx.eng(cfg)
+    THRESHOLDS_ = THRESHOLDS if table is None else table
     n = 0
     n_all = 0
     n_part = 0
@@ -552,8 +566,8 @@ def rule_size_thresholds(ctx, cfg='prod-all', scope=('bbsplus::', 'utils::util::
                     break
                 break
             for sym, k in found:
-                if sym is not None and sym.startswith('i'):
-                    continue      # loop induction variable against a constant: not a size decision
+                if sym is not None and (sym.startswith('i') or re.fullmatch(r'v\d+n', sym)):
+                    continue      # loop induction variable / position in an enumeration against a constant: not a size decision
                 n_all += 1
                 if b.kind != 'Closure' and _success_sides(b, fd, bi) < 2:
                     continue      # a guard: one outcome can only fail
@@ -562,11 +576,41 @@ def rule_size_thresholds(ctx, cfg='prod-all', scope=('bbsplus::', 'utils::util::
                     if _is_byte_len_sym(ozf, osym):
                         continue
                     n += 1
-                    ok = (own, ok_) in THRESHOLDS
+                    why3 = [v_ for k_, v_ in THRESHOLDS_.items() if len(k_) == 3 and k_[1] == osym and k_[2] == ok_ and (own == k_[0] or (k_[0].endswith('::') and (own or '').startswith(k_[0])))]
+                    ok = ((own, ok_) in THRESHOLDS_) or bool(why3)
                     yield Ob('RF-T', '%s#threshold:%s' % (own, ok_), ok,
                              'both outcomes of a comparison of a count with the literal %s can succeed: size-dependent special cases must be the ones of the drafts' % ok_,
-                             '%s L%s' % (b.file(), t.get('line')), fact={'term': osym, 'constant': ok_, 'reason': THRESHOLDS.get((own, ok_)), 'compared_in': p},
+                             '%s L%s' % (b.file(), t.get('line')), fact={'term': osym, 'constant': ok_, 'reason': THRESHOLDS_.get((own, ok_)) or (why3[0] if why3 else None), 'compared_in': p},
                              expected='tabled threshold')
+        # a selection without a branch: `(count > k).then_some(v)` / `.then(|| ..)` - present for some sizes, absent for others, and both go on
+        for bi, t in b.calls():
+            cal = t.get('callee') or ''
+            if not cal.endswith(('<impl bool>::then_some', '<impl bool>::then')) or not t['args'] or t['args'][0]['k'] not in ('copy', 'move') or t['args'][0]['pl'].get('p'):
+                continue
+            l = t['args'][0]['pl']['l']
+            for _ in range(4):
+                d = zf.single_def(l)
+                if not d:
+                    break
+                if d[0] == 'assign' and d[2]['rv']['k'] == 'binop' and d[2]['rv']['op'] in ('Eq', 'Ne', 'Lt', 'Le', 'Gt', 'Ge'):
+                    a, c = zf.term_op(d[2]['rv']['a']), zf.term_op(d[2]['rv']['b'])
+                    if a is not None and c is not None and (a[0] is None) != (c[0] is None):
+                        sym, k = (a, c[1]) if c[0] is None else (c, a[1])
+                        n_all += 1
+                        if sym[0] is not None and not sym[0].startswith('i') and not _is_byte_len_sym(zf, sym[0]):
+                            n += 1
+                            ok = (owner, 'selection', k - sym[1]) in THRESHOLDS_       # (a selection is tabled on its own, not under the branch on the same literal)
+                            yield Ob('RF-T', '%s#selection:%s' % (owner, k - sym[1]), ok,
+                                     'a value is present or absent depending on a comparison of a count with the literal %s (`then_some` / `then`): a size-dependent special case' % (k - sym[1]),
+                                     '%s L%s' % (b.file(), t.get('line')), fact={'term': sym[0], 'constant': k - sym[1], 'selected_by': cal.split('::')[-1]}, expected='tabled threshold')
+                    break
+                if d[0] == 'assign' and d[2]['rv']['k'] == 'unop' and d[2]['rv']['op'] == 'Not' and d[2]['rv']['a']['k'] in ('copy', 'move'):
+                    l = d[2]['rv']['a']['pl']['l']
+                    continue
+                if d[0] == 'assign' and d[2]['rv']['k'] == 'use' and d[2]['rv']['op']['k'] in ('copy', 'move') and not d[2]['rv']['op']['pl'].get('p'):
+                    l = d[2]['rv']['op']['pl']['l']
+                    continue
+                break
         # partitioning by a constant size: chunks(N), split_at(N), take(N), len.min(N) ... treat sizes below and above N differently without a branch
         for bi, t in b.calls():
             cal = t.get('callee') or ''
@@ -591,8 +635,8 @@ def rule_size_thresholds(ctx, cfg='prod-all', scope=('bbsplus::', 'utils::util::
                 yield Ob('RF-T', '%s#partition:%s(%s)' % (owner, short, k), ok,
                          'a list is partitioned at the literal size %s by %s: inputs shorter and longer than that are processed differently' % (k, short),
                          '%s L%s' % (b.file(), t.get('line')), fact={'callee': cal, 'constant': k, 'reason': PARTITIONS.get((owner, short, k))}, expected='tabled partition')
-    yield Ob('RF-T', 'crate#threshold-census', n_all >= 10, 'comparisons of a count / length with a literal examined', '',
-             fact={'examined': n_all, 'special_cases (both outcomes can succeed, not an octet length)': n, 'partitions': n_part}, expected='>= 10 examined', nontrivial=False)
+    yield Ob('RF-T', 'crate#threshold-census%s' % ('' if table is None else ':' + scope[0].strip(':')), n_all >= floor, 'comparisons of a count / length with a literal examined', '',
+             fact={'examined': n_all, 'special_cases (both outcomes can succeed, not an octet length)': n, 'partitions': n_part}, expected='>= %d examined' % floor, nontrivial=False)
 
 
 # ---------------------------------------------------------------------------------- checked constructors
